@@ -714,7 +714,10 @@ struct EclSubL { name: String, marker: u32, params: u8, uses: Vec<EclUseL> }
 #[derive(Debug, Clone)]
 struct EclTlL { name: String, index: Option<i32>, pat: &'static str, marker: u32, target: String }
 #[derive(Debug, Clone)]
-struct EclLayout { game: Game, subs: Vec<EclSubL>, tls: Vec<EclTlL>, tl_pos: usize }
+struct EclLayout { game: Game, subs: Vec<EclSubL>, tls: Vec<EclTlL>, tl_pos: usize,
+    /// TH06: the user mapfile re-declares the call opcode with the sub id ('E') in another position (0 = builtin `ESf`, 1 = `SEf`, 2 = `SfE`; the int operand stays in front of the float one, which the intrinsic requires);
+    /// call sugar must put the sub's position into the slot the signature declares, wherever it sits
+    call_sig: u8 }
 
 const ECL_NAMES: [&str; 4] = ["mid", "zeta", "alpha", "beta"];
 
@@ -758,11 +761,13 @@ fn gen_ecl(ch: &mut Chooser, game: Game, prof: &[u32]) -> EclLayout {
         let host2 = ch.pick_w(nsub, c(F_USES));
         subs[host2].uses.push(EclUseL { kind: ECL_USE_KINDS[k - 1], name: targets[t].clone(), uid });
     }
-    EclLayout { game, subs, tls, tl_pos }
+    let call_sig = if game == Game::Th06 { ch.pick_w(3, c(F_USES)) as u8 } else { 0 };
+    EclLayout { game, subs, tls, tl_pos, call_sig }
 }
 
 impl EclLayout {
     fn sub_index(&self, name: &str) -> Option<i64> { self.subs.iter().position(|s| s.name == name).map(|p| p as i64) }
+    fn call_slot(&self) -> usize { self.call_sig as usize }
     fn call_opcode(&self) -> u16 { match self.game { Game::Th06 => 35, Game::Th07 => 41, _ => 52 } }
     /// (statement text, expected opcode of the use instruction, dword index of the id or None = first BYTE)
     fn use_text(&self, u: &EclUseL) -> (String, u16, Option<usize>) {
@@ -773,7 +778,7 @@ impl EclLayout {
             EclUse::Call => {
                 let params = self.subs.iter().find(|s| &s.name == n).map_or(0, |s| s.params);
                 let args = ["", "5", "1.5", "5, 1.5"][params as usize];
-                (format!("{n}({args});"), self.call_opcode(), Some(0))
+                (format!("{n}({args});"), self.call_opcode(), Some(self.call_slot()))
             },
             EclUse::ArgE => (format!("ins_{arg_e}({n});"), arg_e, Some(0)),
             EclUse::Plus1E => (format!("ins_{arg_e}({n} + 1);"), arg_e, Some(0)),
@@ -788,7 +793,7 @@ impl EclLayout {
             EclUse::ConstBottom => (format!("ins_900(KB{});", u.uid), 900, Some(0)),
             EclUse::ConstLocal => (format!("const int KL{} = {n}; ins_900(KL{});", u.uid, u.uid), 900, Some(0)),
             EclUse::ByteEnum => if g == Game::Th07 { (format!("ins_107({n});"), 107, None) } else { (format!("ins_{arg_e}({n});"), arg_e, Some(0)) },
-            EclUse::RawCall => if g == Game::Th06 { (format!("ins_35({n}, 0, 0.0);"), 35, Some(0)) } else { (format!("ins_{}({n});", self.call_opcode()), self.call_opcode(), Some(0)) },
+            EclUse::RawCall => if g == Game::Th06 { (match self.call_sig { 0 => format!("ins_35({n}, 0, 0.0);"), 1 => format!("ins_35(0, {n}, 0.0);"), _ => format!("ins_35(0, 0.0, {n});") }, 35, Some(self.call_slot())) } else { (format!("ins_{}({n});", self.call_opcode()), self.call_opcode(), Some(0)) },
         }
     }
     fn use_expect(&self, u: &EclUseL) -> Option<i64> {
@@ -816,7 +821,10 @@ impl EclLayout {
 impl Layout for EclLayout {
     fn fam(&self) -> &'static str { "ecl" }
     fn tool(&self) -> Tool { Tool::new(Kind::Ecl, self.game) }
-    fn mapfile(&self) -> Option<String> { Some("!eclmap\n!ins_signatures\n900 S\n901 SS\n!timeline_ins_signatures\n900 SS\n".into()) }
+    fn mapfile(&self) -> Option<String> {
+        let call = match self.call_sig { 0 => "", 1 => "35 S(imm)E(imm)f(imm)\n", _ => "35 S(imm)f(imm)E(imm)\n" };
+        Some(format!("!eclmap\n!ins_signatures\n900 S\n901 SS\n{call}!timeline_ins_signatures\n900 SS\n"))
+    }
     fn render(&self) -> String {
         let mut s = String::new();
         for u in self.all_uses() { if u.kind == EclUse::ConstTop { s += &format!("const int KT{} = {};\n", u.uid, u.name); } }
@@ -902,6 +910,7 @@ impl Layout for EclLayout {
             "subs": self.subs.iter().enumerate().map(|(p, s)| json!({"name": s.name, "expected_id": p, "marker": s.marker})).collect::<Vec<_>>(),
             "timelines": self.tls.iter().map(|t| json!({"name": t.name, "index": t.index, "target": t.target})).collect::<Vec<_>>(),
             "timeline_slots_expected": format!("{:?}", self.tl_slots()),
+            "call_signature_variant": self.call_sig, "mapfile": self.mapfile(),
             "uses": self.all_uses().iter().map(|u| json!({"uid": u.uid, "kind": format!("{:?}", u.kind), "name": u.name, "expected": self.use_expect(u)})).collect::<Vec<_>>(),
         })
     }
